@@ -572,10 +572,14 @@ def run_tier(prop, tier, verif_seed, workers, runs=None, budget_s=None):
                 plan, viol, digest = r["plan"], r["violations"], r["digest"]
             path = write_replay(prop, f"{r['seed']}_{c[0]}_{c[1]}".replace("/", "_"), plan, viol, digest)
             conf = confirm_in_fresh_process(prop, path)
-            stable = getattr(mod, "DIGEST_STABLE", True)  # C09: a nondeterminism violation has no stable digest by nature
-            if conf is None or c not in conf[0] or (stable and conf[1] != digest):
+            # The violation CLASS must reproduce in a fresh interpreter. The digest normally reproduces too; it cannot when the
+            # violating behaviour is itself nondeterministic (C09 by definition; reads of never-written np.empty memory),
+            # which is then stated next to the VIOLATION line. Harness determinism is established separately (selftest).
+            if conf is None or c not in conf[0]:
                 harness_errors.append(f"violation {c} seed={r['seed']} did not reproduce in a fresh process (nondeterminism): {conf}")
                 continue
+            if conf[1] != digest:
+                print(f"  NOTE {c[0]} site={c[1]}: class reproduced in a fresh process, event-log digest differs (the violating behaviour is nondeterministic, e.g. uninitialised memory)")
             confirmed += 1
             first = [v for v in viol if (v["clause"], v["site"]) == c][0]
             print(f"  {c[0]} site={c[1]}: {first['detail']}")
